@@ -28,7 +28,7 @@ def b(**kw):
 PROPERTIES = {
     "C01": {
         "runs": {
-            "quick": [H("HarnessC01a", b(K=3, CACHE=0)), H("HarnessC01a", b(K=3, CACHE=1)), H("HarnessC01a", b(K=3, CACHE=1, BF=3)), H("HarnessC01a", b(K=4, CACHE=0), sample_every=500), H("HarnessC01e", b(K=3)),
+            "quick": [H("HarnessC01a", b(K=3, CACHE=0)), H("HarnessC01a", b(K=3, CACHE=1)), H("HarnessC01a", b(K=3, CACHE=1, BF=3)), H("HarnessC01a", b(K=3, CACHE=0, FMT=2)), H("HarnessC01a", b(K=3, CACHE=1, FMT=1)), H("HarnessC01a", b(K=4, CACHE=0), sample_every=500), H("HarnessC01e", b(K=3)),
                       H("HarnessC01d", {"K": 2, "BF": 4, "SIGNED": 0, "KW": 5, "Lmax": 8}, sample_every=200)],
             "thorough": [H("HarnessC01e", b(K=4), sample_every=200), H("HarnessC01d", {"K": 2, "BF": 2, "SIGNED": 0, "KW": 5, "Lmax": 8}, sample_every=1000), H("HarnessC01d", {"K": 2, "BF": 3, "SIGNED": 0, "KW": 5, "Lmax": 8}, sample_every=500),
                          H("HarnessC01d", {"K": 2, "BF": 4, "SIGNED": 0, "KW": 5, "Lmax": 8}, sample_every=200), H("HarnessC01d", {"K": 2, "BF": 2, "SIGNED": 1, "KW": 4, "Lmax": 8}, sample_every=500), H("HarnessC01d", {"K": 2, "BF": 3, "SIGNED": 1, "KW": 4, "Lmax": 8}, sample_every=500), H("HarnessC01a", b(K=3, CACHE=0)), H("HarnessC01a", b(K=3, CACHE=1)), H("HarnessC01a", b(K=3, CACHE=0, BF=3)),
@@ -56,8 +56,8 @@ PROPERTIES = {
     },
     "C04": {
         "runs": {
-            "quick": [H("HarnessC04a", b(K=4, NOPS=3), sample_every=200), H("HarnessC04a", b(K=3, NOPS=3, BF=3))] + [H("HarnessC04b", b(N=5, K=1, NOPS=2, HREQ=2, LPAT=p)) for p in (18, 6, 19, 63)] + [H("HarnessC04b", b(N=17, K=1, NOPS=2, Lmax=4, LRULER=1, CONCRETEKEYS=1), sample_every=10, max_steps=30000000)],
-            "thorough": [H("HarnessC04b", b(N=5, K=1, NOPS=2, HREQ=2), sample_every=500), H("HarnessC04b", b(N=4, K=2, NOPS=2), sample_every=500), H("HarnessC04a", b(K=4, NOPS=3), sample_every=200), H("HarnessC04a", b(K=3, NOPS=4)), H("HarnessC04a", b(K=3, NOPS=3, BF=3))],
+            "quick": [H("HarnessC04a", b(K=4, NOPS=3), sample_every=200), H("HarnessC04a", b(K=3, NOPS=3, BF=3))] + [H("HarnessC04b", b(N=5, K=1, NOPS=2, HREQ=2, LPAT=p)) for p in (18, 6, 19, 63)] + [H("HarnessC04a", {**b(K=k, NOPS=3), "SEQ.h": q}, sample_every=200) for k, q in ((5, 10),)] + [H("HarnessC04b", b(N=17, K=1, NOPS=2, Lmax=4, LRULER=1, CONCRETEKEYS=1), sample_every=10, max_steps=30000000)],
+            "thorough": [H("HarnessC04b", b(N=5, K=1, NOPS=2, HREQ=2), sample_every=500), H("HarnessC04a", b(K=4, NOPS=3), sample_every=200), H("HarnessC04a", b(K=3, NOPS=4)), H("HarnessC04a", b(K=3, NOPS=3, BF=3))],
         },
         "must_reach": ["C04.height-rule", "C04.same-link"],
         "bounds_statement": "histories of <= K operations from the empty tree; final persisted root compared with (a) the height rule and (b) the root of a fresh tree given the same entries in ascending order",
@@ -117,12 +117,15 @@ PROPERTIES = {
     "C09": {
         "runs": {
             "quick": [H("HarnessC04a", b(K=4, NOPS=3), sample_every=200), H("HarnessC04a", b(K=4, NOPS=3, CACHE=1), sample_every=200), H("HarnessC04a", b(K=3, NOPS=3, BF=3))] +
-                     [H("HarnessC04b", b(N=5, K=1, NOPS=2, HREQ=2, LPAT=p)) for p in (18, 6, 19, 63)] +
+                     [H("HarnessC04b", b(N=5, K=1, NOPS=2, HREQ=2, LPAT=p)) for p in (18, 6, 19, 63)] + [H("HarnessC04a", {**b(K=k, NOPS=3), "SEQ.h": q}, sample_every=200) for k, q in ((5, 10),)] +
                      # scenario-directed: fixed operation sequences through a shared cache (0 insert, 1 delete, 2 persist+reload), keys/values/layers symbolic
-                     [H("HarnessC04a", {**b(K=k, NOPS=3, CACHE=1), "SEQ.h": q}, sample_every=200) for k, q in ((6, 21020), (5, 2102), (7, 201020))] + [H("HarnessC04b", b(N=17, K=1, NOPS=2, Lmax=4, LRULER=1, CONCRETEKEYS=1), sample_every=10, max_steps=30000000)],
-            "thorough": [H("HarnessC04b", b(N=5, K=1, NOPS=2, HREQ=2), sample_every=500), H("HarnessC04b", b(N=4, K=2, NOPS=2), sample_every=500), H("HarnessC04a", b(K=4, NOPS=3), sample_every=200), H("HarnessC04a", b(K=3, NOPS=3, BF=3))],
+                     [H("HarnessC04a", {**b(K=k, NOPS=3, CACHE=1), "SEQ.h": q}, sample_every=200) for k, q in ((6, 21020), (5, 2102), (7, 201020))] + [H("HarnessC04b", b(N=17, K=1, NOPS=2, Lmax=4, LRULER=1, CONCRETEKEYS=1), sample_every=10, max_steps=30000000)] +
+                     # versions persisted after a failed and retried operation (the fault-injecting harness of C12)
+                     [H("HarnessC12a", b(N=3, PRE=0, F=3, OPMASK=3, NOPROBE=1), sample_every=100)],
+            "thorough": [H("HarnessC04b", b(N=5, K=1, NOPS=2, HREQ=2), sample_every=500), H("HarnessC04a", b(K=4, NOPS=3), sample_every=200), H("HarnessC04a", b(K=3, NOPS=3, BF=3)), H("HarnessC04a", b(K=5, NOPS=2), sample_every=2000),
+                         H("HarnessC04b", b(N=33, K=1, NOPS=2, Lmax=5, LRULER=1, CONCRETEKEYS=1), sample_every=20, max_steps=60000000), H("HarnessC12a", b(N=3, PRE=0, F=5, OPMASK=3, NOPROBE=1), sample_every=500)],
         },
-        "must_reach": ["C09.layers", "C09.ranges", "C09.no-empty-node", "C09.size"],
+        "must_reach": ["C09.size-after-failed-operation", "C09.layers", "C09.ranges", "C09.no-empty-node", "C09.size"],
         "bounds_statement": "persisted version after every history of <= K operations; every reachable node decoded by an independent reader",
         "assumptions": COMMON_ASSUMPTIONS,
     },
@@ -140,7 +143,9 @@ PROPERTIES = {
     },
     "C12": {
         "runs": {
-            "quick": [H("HarnessC12a", b(N=3, PRE=0, F=3))],
+            "quick": [H("HarnessC12a", b(N=3, PRE=0, F=3)),
+                      # directed: concrete height-2 base, one earlier insert on the same handle (dirty in-memory path), then insert/delete under faults
+                      H("HarnessC12a", b(N=5, PRE=1, F=4, OPMASK=3, NOPROBE=1, CONCRETEKEYS=1, LRULER=1, **{"SEQ.pre": 0}), sample_every=500)],
             "thorough": [H("HarnessC12a", b(N=3, PRE=0, F=5), sample_every=1000), H("HarnessC12a", b(N=2, PRE=1, F=3), sample_every=1000), H("HarnessC12a", b(N=3, PRE=1, F=4), sample_every=3000)],
         },
         "must_reach": ["C12.contents-unchanged", "C12.size-unchanged", "C12.retry-result", "C12.contents-after-retry"],
